@@ -176,6 +176,7 @@ def rule_gate_shape(run, F, cfg):
                    f"tag gate over (filter.tag, active_tags)==true [{g_ok}]",
                    site=f.loc(p.blocks[-1]), config=cfg,
                    detail="decisions on path: " + "; ".join(f"{e[-90:]}={v}" for e, v in p.conds[-6:]))
+        run.floor("C07.2.gate-shape", f"paths of {name.split('::')[-1]} that emit a filter [{cfg}]", n, 1)
         run.floor("C07.2.gate-shape", f"emitting paths in {name.split('::')[-1]} [{cfg}]", n, 1)
         # the gate closure must call HashSet::contains on the captured set with the tag
         cl = [c for c in F.closures_of(name)]
